@@ -2,7 +2,8 @@
    A case = an initial axis and a tree of operation histories; every node carries what the
    implementation showed after that operation (samples, the four attributes, the exception
    raised, index_at(axis[i]) for every i).  `check` runs the model along every path of the tree
-   and compares at every node: integers and exception classes exactly, the rate within tolerance. *)
+   and compares at every node: integers and exception classes exactly, the rate within a RELATIVE tolerance (1e-9; no absolute floor
+   that a small rate could hide under). *)
 From Coq Require Import ZArith List Bool QArith PrimFloat.
 From NT Require Import F2Z Lists Close TimeArray C01K UTimeOps.
 Import ListNotations.
@@ -31,7 +32,7 @@ Definition res_eqb (a b : res Z) : bool :=
 
 Definition obs_ok (st : ustate) (e : option err) (o : obs) : bool :=
   zlist_eqb (samples st) (o_samples o) && (a_t0 st =? o_t0 o) && (a_dt st =? o_dt o) &&
-  (a_dur st =? o_dur o) && closeb (a_rate st) (f2q (o_rate o)) &&
+  (a_dur st =? o_dur o) && closeb_tol (1 # 1000000000) (1 # 1000000000000000000000000000000) (a_rate st) (f2q (o_rate o)) &&
   option_eqb err_eqb e (o_exc o) &&
   list_eqb res_eqb (map (uindex_at st) (samples st)) (o_look o).
 
